@@ -130,6 +130,15 @@ func genOp(p Profile, ntables int) *rapid.Generator[Op] {
 			if !p.Unlocked && o.G%4 == 3 && (o.K == opInsert || o.K == opModify || o.K == opDelete || o.K == opInsertWatch) {
 				o.G--
 			}
+		case opBulkInsert, opBulkDelete:
+			o.W = rapid.IntRange(0, 1).Draw(t, "w")
+			o.H = rapid.SampledFrom([]int{0, 0, 1, 0x60, 0xd0}).Draw(t, "from")
+			o.N = rapid.SampledFrom([]int{3, 5, 17, 18, 48, 49, 50, 70}).Draw(t, "count")
+			if o.K == opBulkInsert {
+				o.Tags = rapid.SliceOfN(genKeyN(2), 0, 2).Draw(t, "tags")
+				o.Pfx = rapid.SliceOfN(genP(), 0, 1).Draw(t, "pfx")
+				o.Val = rapid.IntRange(0, 9).Draw(t, "val")
+			}
 		case opDeleteAll, opCommit, opAbort:
 			o.W = rapid.IntRange(0, 1).Draw(t, "w")
 		case opQuery:
@@ -193,7 +202,7 @@ func genCase(t *rapid.T, p Profile) Case {
 }
 
 func baseWeights() map[int]int {
-	return map[int]int{opBegin: 2, opInsert: 7, opInsertWatch: 1, opModify: 2, opDelete: 3, opDeleteAll: 1, opCAS: 2, opCAD: 2, opCommit: 5, opAbort: 2}
+	return map[int]int{opBegin: 2, opInsert: 7, opInsertWatch: 1, opModify: 2, opDelete: 3, opDeleteAll: 1, opCAS: 2, opCAD: 2, opCommit: 5, opAbort: 2, opBulkInsert: 1, opBulkDelete: 1}
 }
 
 func with(w map[int]int, extra map[int]int) map[int]int {
